@@ -3,6 +3,7 @@ import FeatModel.Lemmas.C05Checkpoint
 import FeatModel.Lemmas.C05TextCsr
 import FeatModel.Lemmas.C05TextVec
 import FeatModel.Lemmas.C05Kinds
+import FeatModel.Lemmas.C05Sci
 /-!
 # C05 — persisted containers read back equal to what was written (binary container format)
 
@@ -179,6 +180,29 @@ theorem C05.checkpoint_containers (t : Tag) (cs : List (Bytes × Container))
   obtain ⟨b, hb, hd⟩ := C05.roundtrip_total t 8 8 o.2 (by simp) (by simp) (hwfc o ho)
   simp [hb, hd]
 
+/-- registering objects under pairwise distinct identifiers succeeds and builds exactly the map that `save` writes -/
+theorem C05.checkpoint_register_distinct (objs : List (Bytes × Bytes)) (hnd : (objs.map (·.1)).Nodup) :
+    cpRegisterAll [] objs = some (mapOf objs) :=
+  cpRegisterAll_distinct objs [] (by simpa [keys] using hnd)
+
+/-- a repeated identifier is **reported** (`add_object` asserts), never silently overwritten or merged -/
+theorem C05.checkpoint_duplicate_reported (objs : List (Bytes × Bytes)) (hdup : ¬ (objs.map (·.1)).Nodup) :
+    cpRegisterAll [] objs = none :=
+  cpRegisterAll_duplicate objs [] (by simp [keys]) (by simpa [keys] using hdup)
+
+/-- restoring an identifier that was never registered is **reported** (`restore_object` asserts): no other
+    object's data is returned for it, however similar the identifiers are -/
+theorem C05.checkpoint_missing_reported (objs : List (Bytes × Bytes)) (hnd : (objs.map (·.1)).Nodup)
+    (hwf : ∀ o ∈ objs, o.1.length < 256 ^ 8 ∧ o.2.length < 256 ^ 8)
+    (hlen : (cpCollect objs).length < 256 ^ 8) (name : Bytes) (hmiss : name ∉ objs.map (·.1)) :
+    cpRestore (cpLoad (cpSave objs)) name = none := by
+  obtain ⟨hmem, _⟩ := mapOf_spec objs hnd
+  rw [cpLoad_cpSave objs hlen]
+  apply cpRestore_missing (mapOf objs) (fun x hx => hwf x ((hmem x).mp hx))
+  intro hk
+  obtain ⟨o, ho, rfl⟩ := List.mem_map.mp hk
+  exact hmiss (List.mem_map.mpr ⟨o, (hmem o).mp ho, rfl⟩)
+
 /-- `DistFileIO::write_combined` then `read_combined` for one process (the file behind
     `CheckpointControl::save/load(filename)`): shared data and buffer come back byte for byte; an empty part leaves
     the caller's vector untouched. -/
@@ -204,6 +228,30 @@ theorem C05.typed_roundtrip_bounds (t : Tag) (sDT sIT : Nat) (cvD cvI bkD bkI : 
       (deserialize t.magic sDT sIT b).map (convert bkD bkI) = some c :=
   C05.typed_roundtrip t sDT sIT cvD cvI bkD bkI c hD hI
     (WF_convert t sDT sIT cvD cvI c (by omega) (by omega) ht hraw hsi hcD hcI) h1 h2 h3
+
+/-- **binary mode across data/index widths** with decidable hypotheses: if the converted image is well formed
+    (`ImageOK`, a Boolean check) and every value is representable in the file types (`Representable`, a Boolean
+    check), then `write_out<DT2_, IT2_>`, read back, convert back gives the original container bit for bit -/
+theorem C05.binary_roundtrip_across_widths (t : Tag) (sDT sIT : Nat) (cvD cvI bkD bkI : Nat → Nat) (c : Container)
+    (hD : sDT = 4 ∨ sDT = 8 ∨ sDT = 16) (hI : sIT = 4 ∨ sIT = 8)
+    (hok : ImageOK t sDT sIT (convert cvD cvI c) = true) (hrep : Representable cvD cvI bkD bkI c = true) :
+    ∃ b, serialize t sDT sIT (convert cvD cvI c) = some b ∧
+      (deserialize t.magic sDT sIT b).map (convert bkD bkI) = some c := by
+  obtain ⟨h1, h2, h3⟩ := representable_spec cvD cvI bkD bkI c hrep
+  exact C05.typed_roundtrip t sDT sIT cvD cvI bkD bkI c hD hI (WF_of_ImageOK _ _ _ _ hok) h1 h2 h3
+
+/-- non-vacuity, with the conversions the driver uses: a 2×3 CSR matrix held as double/u64 (values 1.5 and −2,
+    an empty row) written as float/u32 is representable and its image is well formed; with the value 0.1 (not a
+    float) it is not representable -/
+example :
+    ImageOK ⟨4, 0x600000008, 0x100000008⟩ 4 4
+        (convert (cvData 8 4) (cvIndex 4)
+          ⟨[6, 2, 3, 2], [], [[0x3FF8000000000000, 0xC000000000000000]], [[0, 2], [0, 0, 2]]⟩) = true ∧
+      Representable (cvData 8 4) (cvIndex 4) (cvData 4 8) id
+          ⟨[6, 2, 3, 2], [], [[0x3FF8000000000000, 0xC000000000000000]], [[0, 2], [0, 0, 2]]⟩ = true ∧
+      Representable (cvData 8 4) (cvIndex 4) (cvData 4 8) id
+          ⟨[6, 2, 3, 2], [], [[0x3FB999999999999A, 0xC000000000000000]], [[0, 2], [0, 0, 2]]⟩ = false := by
+  decide +kernel
 
 theorem C05.dv_roundtrip (t : Tag) (sDT sIT : Nat) (cvD cvI bkD bkI : Nat → Nat) (vals : List Nat)
     (hD : sDT = 4 ∨ sDT = 8 ∨ sDT = 16) (hI : sIT = 4 ∨ sIT = 8)
@@ -380,3 +428,66 @@ example : CsrWF 3 [0, 2, 2, 3] [0, 3, 1] [5, 6, 7] (0 : Nat) := by
   decide
 
 example : ∀ v : Nat, NoBlank (toString v).toList := fun v => noBlank_natChars v
+
+/-! ## the precision clause, on the decimal strings
+
+`sci6` is `printf("%.6e")` (7 significant digits, half to even on the exact value), `parseSci` is `atof` on such
+strings — the instances of `pr`/`rd` the driver runs against the real `operator<<`/`atof`.  `round7` is defined on
+the numbers only (`sciDecomp`/`sciValue`), `Exact7 x` is the decidable predicate "`x` has at most 7 significant
+decimal digits" (`round7 x = x`).  `DenseVectorBlocked` uses the same writers/readers on its scalar entries. -/
+
+/-- the decimal string denotes exactly the 7-digit rounding of the value -/
+theorem C05.text_rounding (x : Rat) (h : sciOK x = true) : parseSci (sci6 x) = round7 x :=
+  parseSci_sci6 x h
+
+/-- **precision clause**: a value with at most 7 significant decimal digits is read back exactly -/
+theorem C05.text_precision (x : Rat) (h : Exact7 x = true) : parseSci (sci6 x) = x :=
+  parseSci_sci6_exact x h
+
+/-- a printed number never contains a blank or a `#` (the assumptions of the round-trip theorems hold for `sci6`) -/
+theorem C05.sci6_token (x : Rat) : NoBlank (sci6 x).toList ∧ (sci6 x).toList.contains '#' = false :=
+  ⟨noBlank_sci6 x, noHash_sci6 x⟩
+
+theorem C05.map_exact (vs : List Rat) (h : ∀ v ∈ vs, Exact7 v = true) :
+    (vs.map fun v => parseSci (sci6 v)) = vs := by
+  have : ∀ v ∈ vs, (fun v => parseSci (sci6 v)) v = id v := fun v hv => parseSci_sci6_exact v (h v hv)
+  rw [List.map_congr_left this, List.map_id]
+
+/-- CSR through `fm_mtx` with the real number format: identical dimensions, pattern **and values** when every
+    value has at most 7 significant decimal digits -/
+theorem C05.mtx_roundtrip_csr_exact (rows cols : Nat) (rowPtr ci : List Nat) (vs : List Rat) (d : Rat)
+    (h : CsrWF rows rowPtr ci vs d) (hx : ∀ v ∈ vs, Exact7 v = true) :
+    csrMtxRead parseSci (csrMtxWrite sci6 rows cols rowPtr ci vs d) = some (rows, cols, vs.length, rowPtr, ci, vs) := by
+  rw [csr_mtx_roundtrip sci6 parseSci noBlank_sci6 rows cols rowPtr ci vs d h, C05.map_exact vs hx]
+
+/-- … and to printed precision in general: every value is replaced by its 7-digit rounding, nothing else changes -/
+theorem C05.mtx_roundtrip_csr_round7 (rows cols : Nat) (rowPtr ci : List Nat) (vs : List Rat) (d : Rat)
+    (h : CsrWF rows rowPtr ci vs d) (hx : ∀ v ∈ vs, sciOK v = true) :
+    csrMtxRead parseSci (csrMtxWrite sci6 rows cols rowPtr ci vs d)
+      = some (rows, cols, vs.length, rowPtr, ci, vs.map round7) := by
+  rw [csr_mtx_roundtrip sci6 parseSci noBlank_sci6 rows cols rowPtr ci vs d h]
+  have : ∀ v ∈ vs, (fun v => parseSci (sci6 v)) v = round7 v := fun v hv => parseSci_sci6 v (hx v hv)
+  rw [List.map_congr_left this]
+
+theorem C05.mtx_roundtrip_dense_vector_exact (vs : List Rat) (hx : ∀ v ∈ vs, Exact7 v = true) :
+    dvMtxRead parseSci (dvMtxWrite sci6 vs) = some vs := by
+  rw [dv_mtx_roundtrip sci6 parseSci noBlank_sci6 vs, C05.map_exact vs hx]
+
+theorem C05.exp_roundtrip_dense_vector_exact (vs : List Rat) (hx : ∀ v ∈ vs, Exact7 v = true) :
+    expRead parseSci (expWrite sci6 vs) = vs := by
+  rw [exp_roundtrip sci6 parseSci noBlank_sci6 noHash_sci6 vs, C05.map_exact vs hx]
+
+theorem C05.mtx_roundtrip_dense_matrix_exact (r c : Nat) (vs : List Rat) (hr : r ≠ 0) (hc : c ≠ 0)
+    (hl : vs.length = r * c) (hx : ∀ v ∈ vs, Exact7 v = true) :
+    dmMtxRead parseSci (dmMtxWrite sci6 r c vs) = some (r, c, vs) := by
+  rw [dm_mtx_roundtrip sci6 parseSci noBlank_sci6 r c vs hr hc hl, C05.map_exact vs hx]
+
+theorem C05.mtx_roundtrip_sparse_vector_exact (size : Nat) (idx : List Nat) (vs : List Rat)
+    (hl : idx.length = vs.length) (hx : ∀ v ∈ vs, Exact7 v = true) :
+    svMtxRead parseSci (svMtxWrite sci6 size idx vs) = some (size, idx, vs) := by
+  rw [sv_mtx_roundtrip sci6 parseSci noBlank_sci6 size idx vs hl, C05.map_exact vs hx]
+
+/-- non-vacuity: dyadic and decimal values with at most 7 significant digits are `Exact7`
+    (1/1024 = 9.765625e-04 has exactly 7); 1/4096 (9 digits) and 1/3 are not -/
+example : Exact7 (3 / 2) = true ∧ Exact7 (-9999 / 8) = true ∧ Exact7 999999 = true ∧ Exact7 0 = true
+    ∧ Exact7 (1 / 1024) = true ∧ Exact7 (1 / 4096) = false ∧ Exact7 (1 / 3) = false := by decide +kernel
